@@ -250,7 +250,10 @@ class C12(PropBase):
             "x suspensions 0..1 x all binary schedules of the tier's length; all 25 pairs of supplier answers (Ok and every SymbolError "
             "variant) x all 2^6 schedules; 3 tasks x all pick sequences (wake-driven, with and without drops). Random families up to 4 "
             "tasks x 3 lookups x 3 keys x 3 suspensions with spurious polls, starvation bursts and unknown task ids. A case is "
-            "non-trivial when at least two tasks ask for the same key; distinct = distinct case lines")
+            "non-trivial when at least two tasks ask for the same key; distinct = distinct case lines. Lookup kind 10+alt (round 5, second "
+            "pass) = an adaptive lookup: fill_symbol on module alt instead of module key when the task's previous lookup got no symbols "
+            "(exhaustive 2 tasks x 12 rows x answers x all schedules of length 4/7 in mode 0; random in modes 0, 1, 4, 5); the oracle "
+            "judges such a case on the lists obtained by unfolding the rows along the supplier's script")
     trusted_base = [
         "Coq 8.16.1 kernel (vm_compute only in the non-vacuity Examples)",
         "model C12/Model.v written by hand from breakpad-symbols/src/lib.rs (CachedAsyncResult::get, Symbolizer::get_symbols, "
@@ -272,6 +275,13 @@ class C12(PropBase):
         "C12/ProgModel.v; statements of an entry point that touch neither self nor an await count as pure uses of the awaited result; "
         "aborts on any other statement) and ProgModel.istep's reading of what each instruction does (compared with the real code by "
         "the correspondence run, which executes the interpreter)",
+        "translate/c12_processor.py (statement-level reading of into_process_state, walk_stack, fill_source_line_info and of impl "
+        "SymbolProvider for Symbolizer; counts of provider call sites per source file) and ProcModel's reading of it: the frames of each "
+        "thread's finished stack and the lookups get_caller_frame makes per frame are INPUTS of the processor theorem (the unwinders "
+        "themselves are not modelled; that the frame list does not depend on the schedule follows from c12_adaptive_refines for "
+        "requesters whose next lookup is a function of the answers received)",
+        "adaptive requesters: a strategy sees the (module key, outcome class) pairs of its finished lookups; the harness' adaptive "
+        "lookups branch on symbols / no symbols only",
         "locate_file_internal: FileModel.v reads http.rs as cache_default(file_key).get(closure); the closure's answer is a function of the "
         "file key as long as distinct file keys do not share an on-disk cache path (mode 2 generates such keys); props/c12.py aborts when "
         "SymbolError / FileError / FileKind gain or lose a variant",
@@ -314,8 +324,28 @@ class C12(PropBase):
                 "task is not waiting for a held lock), a progress measure that no step increases and every non-waiting step lowers, and "
                 "under any fair instruction schedule (every window of T steps contains every task) everything has finished after "
                 "T * measure steps (c12_source_instr_*, c12_source_instr_fair_schedule_finishes); every poll schedule is an instruction schedule (c12_source_polls_are_instruction_schedules). "
+                "Round 5, second pass: (a) ADAPTIVE requesters - a task is a strategy whose next lookup is a function of the answers it "
+                "has received (the unwinder); for strategies that stop within N lookups an adaptive run is, poll for poll, the run of the "
+                "fixed lists obtained by unfolding the strategies along the supplier's scripted answers, so every theorem holds for "
+                "adaptive requesters (c12_adaptive_refines, c12_adaptive_at_most_once, c12_adaptive_same_outcome, c12_adaptive_counters); "
+                "(b) the PROCESSOR: translate/c12_processor.py regenerates how into_process_state (stats read; join_all over per-thread "
+                "futures that await walk_stack once; stats read), walk_stack (per frame fill_source_line_info then get_caller_frame), "
+                "fill_source_line_info (fill_symbol on the module covering the frame) and impl SymbolProvider for Symbolizer (plain "
+                "delegations) reach the symbolizer, and which source files call provider methods at all (Gen/C12Processor.v; "
+                "c12_source_processor_shape, c12_source_provider_users); for every dump shape and supplier script the join_all executor "
+                "finishes within work root polls, every module of every frame and every module the unwinder asked about is located "
+                "exactly once, every thread gets the single answer per module, requested = processed = distinct modules, and the stats "
+                "map copied into the ProcessState after the join has an entry for the leaf name of every such module, each classifying "
+                "the answer of a requested module of that leaf name (c12_processor_once_per_module); (c) the stats map in every reachable "
+                "state of the poll-level model: an entry classifies the single answer of a requested module with that leaf name whose "
+                "lookup has completed, finished lookups have their entry, at quiescence every requested module has one (c12_stats_sound, "
+                "c12_stats_has_finished, c12_stats_complete_at_quiescence); (d) pending counters of runs that MIX symbol and file lookups, "
+                "instruction level and poll level: processed <= requested <= distinct MODULE keys always, all equal at quiescence "
+                "(c12_source_instr_mixed_counters_bounded, c12_source_instr_mixed_counters, c12_source_mixed_counters). "
                 "The correspondence run of modes 0, 2, 5, 6, 7 executes the interpreter on the regenerated program next to the "
-                "hand-written model (their answers must be identical). The model is tied to the real Symbolizer / "
+                "hand-written model (their answers must be identical); mode 7 also runs the processor model on the regenerated walker "
+                "and mode 0 the adaptive model on cases with adaptive lookups (kind 10+alt; also generated for modes 1, 4, 5, where the "
+                "models run on the unfolded lists). The model is tied to the real Symbolizer / "
                 "HttpSymbolSupplier by polling boxed futures in the case's order (exhaustive small spaces, random larger ones, "
                 "wake-driven, join_all flat/nested/>30 children, drops, loopback HTTP) and by real multi-threaded tokio runs (2..8 workers; "
                 "schedule-independent observables only) in debug and release; an independent oracle re-checks the property on "
